@@ -84,6 +84,8 @@ def main(ctx):
     ctx.tlc_model("Pipeline", "Pipeline_sched_thorough.cfg" if thorough else "Pipeline_sched.cfg",
                   env={"VERIF_CASES": sched}, timeout=1500, deadlock_check=True)
     ctx.tlc_model("Pipeline", "Pipeline_thorough.cfg" if thorough else "Pipeline_quick.cfg", timeout=1500, deadlock_check=True)
+    # implementation-shaped state machines of Rebatch / FilterEmpty / DivideOn / Distribute refine the closed forms
+    ctx.tlc_model("Combinators", "Combinators_thorough.cfg" if thorough else "Combinators_quick.cfg", timeout=1500, deadlock_check=True)
     a = vlib.read_cases(cases)
     s = vlib.read_cases(sched)
     for x in s:
